@@ -101,7 +101,7 @@ def run(ctx):
         ctx.broken_obligation('Properties_C14.vo', getattr(ctx, 'broken', {}))
     EP_DEFS = ['-DFLATCC_EMITTER_ALLOC=ep_alloc', '-DFLATCC_EMITTER_FREE=ep_free', '-include', os.path.join(lib.ROOT, 'harness', 'ep_alloc.h')]
     exe = build_harness(ctx, extra_defs=EP_DEFS)
-    H = lib.Harness(exe, env={'ASAN_OPTIONS': 'detect_leaks=1:abort_on_error=0:allocator_may_return_null=1'})
+    H = lib.Harness(exe, env={'ASAN_OPTIONS': 'detect_leaks=1:abort_on_error=0:allocator_may_return_null=1:max_allocation_size_mb=512'})
 
     if ctx.replay_in:
         import json
@@ -239,6 +239,20 @@ def run(ctx):
     add_pair('refmap', ['rm:1', 'ri:300'] + refs[0][1].ops[:5], 'rs:0:0', refs_ho[0][1], [], False)
     add_pair('refmap', ['rm:1', 'ri:5000', 'sb:0:0:0', 'st:2'], 'rs:0:1', refs[0][1], [], False)
 
+    # ---------------------------------------------------------------- F5b: settings changed while the builder is IDLE (right after init, or right
+    # after another reset), then the set_defaults reset variants, then a build that depends on the setting
+    deep40 = Script(['GUARD']); deep40.extend(deep_build(40)); deep40.emit('REC')
+    idle_settings = [['ml:3'], ['cl:0'], ['vl:8'], ['ml:5', 'cl:0', 'vl:12'], ['rm:1', 'ri:200'], ['id:1145258561'], ['ml:2', 'rm:1', 'ri:40']]
+    def guarded(sc):
+        g_ = Script(['GUARD']); g_.extend(sc); g_.emit('REC'); return g_
+    dep_refs = [deep40, guarded(refs[-1][1]), guarded(rich[0][1]), guarded(refs[0][1])]
+    for si, st_ in enumerate(idle_settings):
+        for before in ([], ['rs:0:0'], ['rs:1:1'], refs[0][1].ops + ['rs:0:0']):
+            for rv in ('rs:1:0', 'rs:1:1', 'rs:0:0'):
+                for ri_, dr in enumerate(dep_refs):
+                    if not ctx.thorough and (si + ri_ + len(before)) % 2: continue
+                    add_pair('idle_settings_then_reset', list(before) + list(st_), rv, dr, [], False, meta={'settings': st_})
+
     # ---------------------------------------------------------------- F6: pooled emitter pages reused at BOTH ends after reset
     def many_vtables(ntab, first=0):
         """top-level buffer with ntab tables of pairwise distinct vtables (table i has its single field at id i): the clustered
@@ -272,6 +286,29 @@ def run(ctx):
             b = Script(); b.extend(refs[0][1]); b.emit('fin')
             ca, cb = Case('reducing_allocator', a.ops, False, '0:2', {'cut': cut}), Case('reducing_allocator:fresh', b.ops, False, '0:2')
             cases += [ca, cb]; pairs.append((ca, cb))
+
+    # an allocator that MOVES every block on every call (also when shrinking) + reducing reset, after histories that grew the vtable stack
+    # and the patch log (wide tables nested in open wide tables)
+    def wide_open(depth, width):
+        s_ = Script(); s_.emit('sb:0:0:0')
+        for d in range(depth):
+            s_.emit('st:%d' % width)
+            for i in range(0, width - 1, 2): s_.emit('ta:%d:4:4:%02x000000' % (i, i & 255))
+        return s_
+    for depth, width in ((3, 40), (6, 120), (2, 400)):
+        for cut_tail in (0, 1):
+            w = wide_open(depth, width)
+            if cut_tail == 0:        # completed: close everything
+                k = w.emit('et')
+                for d in range(depth - 1):
+                    w.emit('to:%d:$%d' % (width - 1, k)); k = w.emit('et')
+                w.emit('eb:$%d' % k)
+            for rv in ('rs:0:1', 'rs:1:1'):
+                for rr_ in (refs[0][1], refs[-1][1]):
+                    a = Script(w.ops); a.emit(rv); a.emit('snap'); a.extend(rr_); a.emit('fin'); a.emit('snap')
+                    b = Script(); b.emit('snap'); b.extend(rr_); b.emit('fin')
+                    ca, cb = Case('reducing_allocator', a.ops, False, '0:2', {'reset': rv}), Case('reducing_allocator:fresh', b.ops, False, '0:2')
+                    cases += [ca, cb]; pairs.append((ca, cb))
 
     # ---------------------------------------------------------------- F4: footprint over many iterations
     iters = 3000 if ctx.thorough else 300
@@ -502,7 +539,7 @@ def run(ctx):
                 ctx.violation(key, 'after %s (%s) the builder field %s is %s; a freshly initialised builder with the same settings has %s' % (
                                   ca.klass, ca.meta.get('reset'), f, ar.get(f), fr0.get(f)),
                               {'harness_line': ca.impl_line(), 'fresh_line': cb.impl_line(), 'fields': {x: (ar.get(x), fr0.get(x)) for x in bad}})
-        if fb in ('FINFAIL', 'COPYFAIL') or (fb == '-' and not cb.klass.startswith('json')):
+        if fb in ('FINFAIL', 'COPYFAIL') or (fb == '-' and not cb.klass.startswith('json') and not cb.klass.startswith('idle_settings')):
             ctx.violation('reference-build-failed:' + cb.klass, 'reference build on a fresh builder produced no buffer', {'harness_line': cb.impl_line()})
             continue
         if fa != fb:
